@@ -279,3 +279,215 @@ class HeatShare(Contract):
         yield ('C06.heat', z3.ForAll([i, c], z3.Implies(z3.And(i >= 0, i < n, c >= 0, c < N), z3.And(
             lift(A.f(m0 + i, c)) == ind(c, ht + i) - ctx['share'].f(i) * ind(c, i), lift(b.f(m0 + i)) == 0,
             lift(S.char_at(ct, m0 + i)) == sym.strlit('U')))))
+
+
+@register
+class FuelConsumption(Contract):
+    """CHPAsset._add_fuel_consumption: C06 "fuel drawn equals output divided by fuel efficiency plus the running and start
+    consumption".  The fuel draw is expressed through mapping rows at the fuel node (dispatch = sum of x x disp_factor, see C01):
+        every power dispatch row of variable j at step t   ->  a fuel-node row of j with factor  -1 / eff[t]
+        every heat dispatch row                            ->  factor  -conv[t] / eff[t]
+        every on-flag row  (if on variables exist)         ->  type d, factor  -consumption_if_on[t]
+        every start-flag row (if start variables exist)    ->  type d, factor  -start_fuel[t]
+    and the rows that were there before are kept in place.  Harness: a mapping of R rows of arbitrary content; the rows of one
+    kind are in step order (established by _add_dispatch_variables / _add_bool_variables: one row per step), so the per-step
+    parameter arrays (length = number of such rows) align with them."""
+    qualname = 'assets:CHPAsset._add_fuel_consumption'
+    prefix = 'C06.fuel'
+    properties = ('C06',)
+
+    def cases(self):
+        return [dict(heat=h, on=o, start=s) for h in (True, False) for (o, s) in ((True, True), (True, False), (False, False))]
+
+    def harness(self, H, case):
+        R = H.int('n_maprows')
+        H.assume(R >= 0)
+        idx = H.fun('map_index', z3.IntSort(), z3.IntSort())
+        ts = H.fun('map_time_step', z3.IntSort(), z3.IntSort())
+        node = H.fun('map_node', z3.IntSort(), sym.Str)
+        typ = H.fun('map_type', z3.IntSort(), sym.Str)
+        var = H.fun('map_var_name', z3.IntSort(), sym.Str)
+        names = [H.str('node_power'), H.str('node_heat'), H.str('node_fuel')]
+        H.assume(z3.Distinct(*names))
+        col = lambda f: Arr(R, lambda q: f(lift(q)))
+        mapping = DF(R, col(idx), {'time_step': col(ts), 'node': col(node), 'type': col(typ), 'var_name': col(var)})
+        op = Obj('OptimProblem', mapping=mapping)
+        self_obj = Obj('CHPAsset', name=H.str('asset_name'), node_names=names if case['heat'] else [names[0], names[2]],
+                       idx_nodes={'power': 0, 'heat': 1 if case['heat'] else None, 'fuel': 2 if case['heat'] else 1})
+        fuel = names[2]
+        # number of rows of each kind = length of the per-step parameter arrays (one row per step of the asset's window)
+        kinds = {'power': lambda q: z3.And(var(q) == sym.strlit('disp'), node(q) == names[0]),
+                 'heat': lambda q: z3.And(var(q) == sym.strlit('disp'), node(q) == names[1]),
+                 'on': lambda q: var(q) == sym.strlit('bool_on'), 'start': lambda q: var(q) == sym.strlit('bool_start')}
+        T = H.int('T')
+        H.assume(T >= 0)
+        eff, conv, cons, sfuel = (H.real_arr(nm, T) for nm in ('fuel_efficiency', 'conversion_factor_power_heat', 'consumption_if_on', 'start_fuel'))
+        q = z3.Int('h!q')
+        H.assume(z3.ForAll([q], z3.Implies(z3.And(q >= 0, q < T), eff.f(q) != 0), patterns=[eff.f(q)]))
+        ctx = dict(self_obj=self_obj, op=op, R=R, idx=idx, ts=ts, node=node, typ=typ, var=var, names=names, fuel=fuel, kinds=kinds, T=T,
+                   eff=eff, conv=conv, cons=cons, sfuel=sfuel, mapping=mapping,
+                   args=[op, eff, cons, sfuel, conv, case['on'], case['start']])
+        # the selections of each kind have exactly T rows (precondition; see docstring)
+        for k in ('power',) + (('heat',) if case['heat'] else ()) + (('on',) if case['on'] else ()) + (('start',) if case['start'] else ()):
+            mask = Arr(R, lambda p, _k=k: kinds[_k](lift(p)))
+            cnt, sel, rank = sym.COMP.get(mask)
+            H.assume(cnt == T)
+            ctx['sel_' + k] = (cnt, sel, rank)
+        H.protect[id(eff)] = 'fuel_efficiency'
+        return ctx
+
+    def post(self, H, case, outcome, I, ctx):
+        if outcome[0] != 'return':
+            yield ('C06.fuel.no_raise', False if outcome[0] == 'raise' else Havoc(outcome[1]))
+            return
+        op = outcome[1]
+        m = op.get('mapping') if isinstance(op, Obj) else None
+        if not isinstance(m, DF) or any(isinstance(m.cols.get(k), Havoc) or m.cols.get(k) is None for k in ('node', 'type', 'var_name', 'disp_factor', 'time_step')):
+            yield ('C06.fuel.modelled', Havoc('mapping after _add_fuel_consumption is not a modelled frame'))
+            return
+        R, T = ctx['R'], ctx['T']
+        blocks = ['power'] + (['heat'] if case['heat'] else []) + (['on'] if case['on'] else []) + (['start'] if case['start'] else [])
+        yield ('C06.fuel.rows_added_per_kind', lift(m.n) == R + len(blocks) * T)
+        q, k = z3.Int('q'), z3.Int('k')
+        col = lambda nm: m.cols[nm]
+        # the rows that were there before are kept (disp_factor left as it was -- undefined where the asset had none)
+        yield ('C06.fuel.base_rows_kept', z3.ForAll([q], z3.Implies(z3.And(q >= 0, q < R), z3.And(
+            lift(m.index.f(q)) == ctx['idx'](q), lift(col('node').f(q)) == ctx['node'](q), lift(col('type').f(q)) == ctx['typ'](q),
+            lift(col('var_name').f(q)) == ctx['var'](q), lift(col('time_step').f(q)) == ctx['ts'](q)))))
+        want = {'power': lambda t: -1 / ctx['eff'].f(t), 'heat': lambda t: -ctx['conv'].f(t) / ctx['eff'].f(t),
+                'on': lambda t: -ctx['cons'].f(t), 'start': lambda t: -ctx['sfuel'].f(t)}
+        for bi, kind in enumerate(blocks):
+            cnt, sel, rank = ctx['sel_' + kind]
+            off = R + bi * T
+            dfv = lambda kk: sym.null_parts(col('disp_factor').f(off + kk))
+            clauses = lambda kk: z3.And(
+                lift(m.index.f(off + kk)) == ctx['idx'](sel(kk)),                 # same variable
+                lift(col('time_step').f(off + kk)) == ctx['ts'](sel(kk)),         # same step
+                lift(col('node').f(off + kk)) == ctx['fuel'],                     # at the fuel node
+                lift(col('var_name').f(off + kk)) == ctx['var'](sel(kk)),
+                lift(col('type').f(off + kk)) == (sym.strlit('d') if kind in ('on', 'start') else ctx['typ'](sel(kk))),
+                z3.Not(sym.to_bool(dfv(kk)[0])), lift(dfv(kk)[1]) == want[kind](kk))
+            yield (f'C06.fuel.{kind}_rows_draw_fuel', z3.ForAll([k], z3.Implies(z3.And(k >= 0, k < T), clauses(k))))
+
+
+@register
+class BoolVariables(Contract):
+    """CHPAsset._add_bool_variables: C06 "on/start/shutdown binaries" -- establishes the block layout the other helper contracts assume:
+    blocks of T new variables each (T = steps of the asset's window), appended after the existing ones in the order on, start,
+    shutdown; bounds [0, 1]; mapping rows (one per step, in step order) of type 'i', flagged boolean, named bool_on / bool_start /
+    bool_shutdown; the new columns of A are empty; the existing variables, rows and mapping rows are kept."""
+    qualname = 'assets:CHPAsset._add_bool_variables'
+    prefix = 'C06.bools'
+    properties = ('C06', 'C07')
+
+    def cases(self):
+        return [dict(on=True, start=s, shutdown=d) for s in (False, True) for d in (False, True)] + [dict(on=False, start=False, shutdown=False)]
+
+    def harness(self, H, case):
+        n0, m0, T = H.int('n_vars0'), H.int('n_rows0'), H.int('T')
+        H.assume(z3.And(n0 >= 0, m0 >= 0, T >= 0))
+        af = H.fun('A0', z3.IntSort(), z3.IntSort(), z3.RealSort())
+        l0, u0 = H.real_arr('l0', n0), H.real_arr('u0', n0)
+        idx = H.fun('map_index', z3.IntSort(), z3.IntSort())
+        ts = H.fun('map_time_step', z3.IntSort(), z3.IntSort())
+        var = H.fun('map_var_name', z3.IntSort(), sym.Str)
+        nm = H.str('asset_name')
+        # mapping so far: one row per existing variable (dispatch variables for power and heat), as _add_dispatch_variables leaves it
+        col = lambda f: Arr(n0, lambda q: f(lift(q)))
+        mapping = DF(n0, col(idx), {'time_step': col(ts), 'var_name': col(var), 'asset': Arr(n0, lambda q: nm), 'type': Arr(n0, lambda q: 'd'),
+                                    'node': Arr(n0, lambda q: H.str('node_any'))})
+        op = Obj('OptimProblem', A=Mat(m0, n0, lambda r, c: af(lift(r), lift(c))), l=l0, u=u0, mapping=mapping)
+        rI = H.int_arr('rI', T)
+        self_obj = Obj('CHPAsset', name=nm, timegrid=Obj('Timegrid', restricted=Obj('Timegrid', T=T, I=rI)))
+        return dict(self_obj=self_obj, op=op, n0=n0, m0=m0, T=T, af=af, l0=l0, u0=u0, rI=rI, idx=idx, ts=ts, var=var,
+                    args=[op, case['on'], case['start'], case['shutdown']])
+
+    def post(self, H, case, outcome, I, ctx):
+        if outcome[0] != 'return':
+            yield ('C06.bools.no_raise', False if outcome[0] == 'raise' else Havoc(outcome[1]))
+            return
+        op, so = outcome[1], ctx['self_obj']
+        n0, m0, T = ctx['n0'], ctx['m0'], ctx['T']
+        blocks = (['bool_on'] if case['on'] else []) + (['bool_start'] if case['on'] and case['start'] else []) + (['bool_shutdown'] if case['on'] and case['shutdown'] else [])
+        A, l, u, m = (op.get(k) for k in ('A', 'l', 'u', 'mapping'))
+        if any(isinstance(x, Havoc) for x in (A, l, u, m)):
+            yield ('C06.bools.modelled', next(x for x in (A, l, u, m) if isinstance(x, Havoc)))
+            return
+        nb = len(blocks)
+        yield ('C06.bools.one_block_of_T_variables_per_kind', z3.And(lift(l.n) == n0 + nb * T, lift(u.n) == n0 + nb * T, lift(A.nc) == n0 + nb * T,
+                                                                    lift(A.nr) == m0, lift(m.n) == n0 + nb * T))
+        attrs = {'bool_on': 'on_idx', 'bool_start': 'start_idx', 'bool_shutdown': 'shutdown_idx'}
+        yield ('C06.bools.block_offsets_recorded', all(so.has(attrs[b]) and z3.is_true(z3.simplify(lift(so.get(attrs[b])) == n0 + k * T)) for k, b in enumerate(blocks)))
+        j, r, k = z3.Int('j'), z3.Int('r'), z3.Int('k')
+        yield ('C06.bools.existing_variables_and_rows_kept', z3.ForAll([j, r], z3.Implies(z3.And(j >= 0, j < n0, r >= 0, r < m0), z3.And(
+            lift(l.f(j)) == ctx['l0'].f(j), lift(u.f(j)) == ctx['u0'].f(j), lift(A.f(r, j)) == ctx['af'](r, j),
+            lift(m.index.f(j)) == ctx['idx'](j), lift(m.cols['time_step'].f(j)) == ctx['ts'](j), lift(m.cols['var_name'].f(j)) == ctx['var'](j)))))
+        if nb:
+            yield ('C06.bools.binaries_between_zero_and_one', z3.ForAll([j], z3.Implies(z3.And(j >= n0, j < n0 + nb * T), z3.And(lift(l.f(j)) == 0, lift(u.f(j)) == 1))))
+            yield ('C06.bools.new_columns_empty', z3.ForAll([j, r], z3.Implies(z3.And(j >= n0, j < n0 + nb * T, r >= 0, r < m0), lift(A.f(r, j)) == 0)))
+            bcol = m.cols.get('bool')
+            yield ('C06.bools.flag_column', isinstance(bcol, Arr))
+            if isinstance(bcol, Arr):
+                yield ('C06.bools.existing_rows_not_boolean', z3.ForAll([j], z3.Implies(z3.And(j >= 0, j < n0), z3.Not(sym.to_bool(bcol.f(j))))))
+                for bi, b in enumerate(blocks):
+                    off = n0 + bi * T
+                    yield (f'C06.bools.{b}.one_row_per_step_in_step_order', z3.ForAll([k], z3.Implies(z3.And(k >= 0, k < T), z3.And(
+                        lift(m.cols['time_step'].f(off + k)) == ctx['rI'].f(k), lift(m.cols['var_name'].f(off + k)) == sym.strlit(b),
+                        lift(m.cols['type'].f(off + k)) == sym.strlit('i'), sym.to_bool(bcol.f(off + k)),
+                        lift(m.cols['asset'].f(off + k)) == lift(so.get('name'))))))
+
+
+@register
+class DispatchVariables(Contract):
+    """CHPAsset._add_dispatch_variables: every dispatch variable of the underlying contract becomes a power variable (same column) and a heat
+    variable (column n + j) whose rows carry the same coefficients times the conversion factor (C06: "virtual output = power + factor x
+    heat" enters every existing row); bounds: power in [0, max_cap], heat in [0, share x max_cap] resp. [0, max_cap / factor]; the mapping
+    rows are duplicated for the power node and the heat node (step order kept)."""
+    qualname = 'assets:CHPAsset._add_dispatch_variables'
+    prefix = 'C06.dispvars'
+    properties = ('C06', 'C07')
+
+    def cases(self):
+        return [dict(share=True), dict(share=False)]
+
+    def harness(self, H, case):
+        n, m0 = H.int('n_disp'), H.int('n_rows0')
+        H.assume(z3.And(n >= 0, m0 >= 0))
+        af = H.fun('A0', z3.IntSort(), z3.IntSort(), z3.RealSort())
+        idx = H.fun('map_index', z3.IntSort(), z3.IntSort())
+        ts = H.fun('map_time_step', z3.IntSort(), z3.IntSort())
+        names = [H.str('node_power'), H.str('node_heat'), H.str('node_fuel')]
+        nm = H.str('asset_name')
+        col = lambda f: Arr(n, lambda q: f(lift(q)))
+        mapping = DF(n, col(idx), {'time_step': col(ts), 'var_name': Arr(n, lambda q: 'disp'), 'asset': Arr(n, lambda q: nm), 'type': Arr(n, lambda q: 'd'),
+                                   'node': Arr(n, lambda q: names[0])})
+        op = Obj('OptimProblem', A=Mat(m0, n, lambda r, c: af(lift(r), lift(c))), l=H.real_arr('l0', n), u=H.real_arr('u0', n), mapping=mapping)
+        conv, cap = H.real_arr('conversion_factor_power_heat', n), H.real_arr('max_cap', n)
+        q = z3.Int('h!q')
+        H.assume(z3.ForAll([q], z3.Implies(z3.And(q >= 0, q < n), conv.f(q) != 0), patterns=[conv.f(q)]))
+        share = H.real_arr('max_share_heat', n) if case['share'] else None
+        self_obj = Obj('CHPAsset', name=nm, nodes=[Obj('Node', name=x) for x in names])
+        return dict(self_obj=self_obj, op=op, n=n, m0=m0, af=af, idx=idx, ts=ts, names=names, conv=conv, cap=cap, share=share, args=[op, conv, cap, share])
+
+    def post(self, H, case, outcome, I, ctx):
+        if outcome[0] != 'return':
+            yield ('C06.dispvars.no_raise', False if outcome[0] == 'raise' else Havoc(outcome[1]))
+            return
+        op, so = outcome[1], ctx['self_obj']
+        n, m0 = ctx['n'], ctx['m0']
+        A, l, u, m = (op.get(k) for k in ('A', 'l', 'u', 'mapping'))
+        if any(isinstance(x, Havoc) for x in (A, l, u, m)):
+            yield ('C06.dispvars.modelled', next(x for x in (A, l, u, m) if isinstance(x, Havoc)))
+            return
+        j, r = z3.Int('j'), z3.Int('r')
+        yield ('C06.dispvars.power_and_heat_variable_per_dispatch_variable', z3.And(lift(A.nc) == 2 * n, lift(A.nr) == m0, lift(l.n) == 2 * n, lift(u.n) == 2 * n,
+                                                                                   lift(m.n) == 2 * n, so.has('heat_idx') and lift(so.get('heat_idx')) == n))
+        yield ('C06.dispvars.rows_act_on_power_plus_factor_times_heat', z3.ForAll([j, r], z3.Implies(z3.And(j >= 0, j < n, r >= 0, r < m0), z3.And(
+            lift(A.f(r, j)) == ctx['af'](r, j), lift(A.f(r, n + j)) == ctx['conv'].f(j) * ctx['af'](r, j)))))
+        uh = (lambda jj: ctx['share'].f(jj) * ctx['cap'].f(jj)) if case['share'] else (lambda jj: ctx['cap'].f(jj) / ctx['conv'].f(jj))
+        yield ('C06.dispvars.bounds', z3.ForAll([j], z3.Implies(z3.And(j >= 0, j < n), z3.And(
+            lift(l.f(j)) == 0, lift(l.f(n + j)) == 0, lift(u.f(j)) == ctx['cap'].f(j), lift(u.f(n + j)) == uh(j)))))
+        yield ('C06.dispvars.mapping_rows_for_power_and_heat_node', z3.ForAll([j], z3.Implies(z3.And(j >= 0, j < n), z3.And(
+            lift(m.cols['node'].f(j)) == ctx['names'][0], lift(m.cols['node'].f(n + j)) == ctx['names'][1],
+            lift(m.cols['time_step'].f(j)) == ctx['ts'](j), lift(m.cols['time_step'].f(n + j)) == ctx['ts'](j),
+            lift(m.index.f(j)) == ctx['idx'](j), lift(m.index.f(n + j)) == ctx['idx'](j)))))
